@@ -12,6 +12,12 @@ BUILD = os.path.join(VERIF, "build")
 ES = os.path.join(VERIF, "engine_s")
 NPROC = int(os.environ.get("VERIF_JOBS", "16"))
 GUARD = "BPP_CORE_VERIF"
+# z3 5.1 (the z3-solver wheel pre-installed in the tooling venv) decides the nlsat queries that 4.8.12 times out on
+Z3DIR = "/opt/veriftools/pyvenv/lib/python3.11/site-packages/z3"
+if os.path.exists(os.path.join(Z3DIR, "lib", "libz3.so")):
+    Z3INC, Z3LINK, Z3NAME = ["-I", os.path.join(Z3DIR, "include")], ["-L" + os.path.join(Z3DIR, "lib"), "-lz3", "-Wl,-rpath," + os.path.join(Z3DIR, "lib")], "z3 5.1.0 (tooling venv libz3.so)"
+else:
+    Z3INC, Z3LINK, Z3NAME = [], ["-lz3"], "system libz3 4.8.12"
 CXXF = ["-std=c++17", "-O1", "-fno-vectorize", "-fno-slp-vectorize", "-fno-unroll-loops", "-ffp-contract=off",
         "-D_GLIBCXX_ASSERTIONS", "-D" + GUARD, "-fPIC", "-w"]
 
@@ -55,7 +61,7 @@ def ensure_tools():
         os.replace(so + ".tmp", so)
     rt = os.path.join(BUILD, "symrt.o")
     if newer(rt, [os.path.join(ES, "symrt.cpp"), os.path.join(ES, "symrt.h")]):
-        must(["g++", "-std=c++17", "-O2", "-c", os.path.join(ES, "symrt.cpp"), "-I", ES, "-o", rt + ".tmp"])
+        must(["g++", "-std=c++17", "-O2", "-w", "-c", os.path.join(ES, "symrt.cpp"), "-I", ES] + Z3INC + ["-o", rt + ".tmp"])
         os.replace(rt + ".tmp", rt)
     rp = os.path.join(BUILD, "replayrt.o")
     if newer(rp, [os.path.join(ES, "replayrt.cpp"), os.path.join(ES, "symrt.h")]):
@@ -182,7 +188,7 @@ def build_harness(src, defines, h=None, stubs=None):
     ll, bc = exe + ".ll", exe + ".bc"
     must(["clang++-14"] + CXXF + ["-I", SRC, "-I", ES, "-I", os.path.join(VERIF, "harness")] + ["-D" + x for x in defines] + ["-S", "-emit-llvm", src, "-o", ll])
     must(["opt-14", "-load-pass-plugin=" + so, "-passes=symfp", ll, "-o", bc])
-    must(["clang++-14", "-O1", bc, rt, lib, "-lz3", "-o", exe + ".tmp"])
+    must(["clang++-14", "-O1", bc, rt, lib] + Z3LINK + ["-o", exe + ".tmp"])
     os.replace(exe + ".tmp", exe)
     os.remove(ll); os.remove(bc)
     return exe
